@@ -58,7 +58,9 @@ Theorem C06_tie_consts :
   gen_ld_enc_field_len = 4 /\ gen_ld_enc_adjust_neg = 4 /\ gen_ld_enc_adjust_is_negative = true /\
   gen_ld_enc_max_minus = 4 /\
   gen_ld_dec_field_len = 4 /\ gen_ld_dec_adjust_neg = 4 /\ gen_ld_dec_adjust_is_negative = true /\
-  gen_ld_dec_max_minus = 0 /\ gen_set_encoder_minus = 4.
+  gen_ld_dec_max_minus = 0 /\ gen_set_encoder_minus = 4 /\
+  (* after the open exchange the writer is limited by the peer's max-frame-size, the reader by our own *)
+  gen_encoder_limit_is_remote = true /\ gen_decoder_limit_is_remote = false.
 Proof. exact tie_frame_consts. Qed.
 
 (** Non-vacuity: M = 512, a 1200-byte payload, 20/12/10-byte performatives. *)
